@@ -23,7 +23,9 @@ META = dict(
     outside=['histories longer than 2 steps', 'payload types other than dict/list/tuple/int/numpy arrays'],
 )
 
-SOURCES = ['new_dict_pickle', 'new_list_pickle', 'new_dict_copy', 'new_list_copy', 'list_wu', 'cache_over_new', 'cache_over_raw', 'diskcache_over_new', 'eager_cache']
+SOURCES = ['new_dict_pickle', 'new_list_pickle', 'new_dict_copy', 'new_list_copy', 'list_wu', 'cache_over_new', 'cache_over_raw', 'diskcache_over_new', 'eager_cache', 'diskcache_over_raw']
+# sources that meet examples which cannot be serialised (shape 'unpicklable'): a loud refusal is fine, handing out the stored object is not
+UNPICKLABLE_SOURCES = ['new_dict_pickle', 'new_dict_copy', 'new_list_copy', 'list_wu', 'cache_over_raw', 'diskcache_over_raw', 'eager_cache']
 ACCESS = ['idx', 'neg', 'key', 'slice', 'iter', 'items', 'copy', 'kept_slice', 'kept_rev', 'kept_copy']
 KEPT = {}        # derived datasets that are created once per history and accessed again and again (a slice, a reversed view, a copy)
 MUTATE = ['setkey', 'append', 'nested', 'delete', 'clear', 'orig', 'arr_big', 'arr_small', 'arr_slice']
@@ -38,6 +40,10 @@ def _payload(shape='dict'):
     """shape 'dict': every example is a nested dict; shape 'tuple': every example is a tuple (id, nested dict) - an immutable container
     around mutable data, which a "nothing to protect" shortcut keyed on the top-level type would hand out unprotected"""
     d = _payload_dict()
+    if shape == 'unpicklable':
+        for v in d.values():
+            v['f'] = lambda: 0          # a member that pickle refuses (deepcopy treats functions as atomic)
+        return d
     if shape == 'tuple':
         return {k: (i, v) for i, (k, v) in enumerate(d.items())}
     return d
@@ -94,6 +100,8 @@ def _build(source, payload, scratch):
         ds = lazy_dataset.new(payload).diskcache(cache_dir=scratch, reuse=False, clear=True)
     elif source == 'eager_cache':
         ds = DictDataset(payload).cache(lazy=False)
+    elif source == 'diskcache_over_raw':
+        ds = DictDataset(payload).diskcache(cache_dir=scratch, reuse=False, clear=True)
     else:
         raise ValueError(source)
     return ds, keyed
@@ -170,7 +178,7 @@ def _run(source, steps, shape='dict'):
     scratch = os.path.join(os.environ.get('VERIF_WORK') or '/var/tmp', f'c09_{os.getpid()}_{_COUNTER[0]}')
     try:
         ds, keyed = _build(source, payload, scratch)
-        if source == 'cache_over_raw':
+        if source in ('cache_over_raw', 'diskcache_over_raw'):
             # a raw (non-immutable) upstream: warm the cache first, the claim is about what the cache hands out afterwards
             for t in range(N):
                 ds[t]
@@ -180,6 +188,10 @@ def _run(source, steps, shape='dict'):
             if not _check_all(ds, keyed, pristine):
                 return False
         return True
+    except Exception:   # noqa
+        if shape == 'unpicklable':
+            return True         # examples that cannot be serialised are refused loudly: nothing was handed out that could be mutated
+        raise
     finally:
         KEPT.clear()
         ds = None
@@ -235,7 +247,7 @@ def _c2(tier, seed):
 
 
 FAMILIES = [
-    Family('iso1', body_iso1, ['source', 'shape'], [('a', 'int'), ('m', 'int'), ('t', 'int')], lambda tier, seed: [(s, sh) for s in SOURCES for sh in SHAPES], timeout=dict(quick=120, thorough=300),
+    Family('iso1', body_iso1, ['source', 'shape'], [('a', 'int'), ('m', 'int'), ('t', 'int')], lambda tier, seed: [(s, sh) for s in SOURCES for sh in SHAPES] + [(s, 'unpicklable') for s in UNPICKLABLE_SOURCES], timeout=dict(quick=120, thorough=300),
            desc='one access + in-place mutation, then every access path must return the pristine snapshot'),
     Family('iso2', body_iso2, ['source', 'shape', 'acc1', 'mut1', 't1'], [('a', 'int'), ('m', 'int'), ('t', 'int')], _c2, timeout=dict(quick=120, thorough=300),
            desc='two-step histories'),
